@@ -150,3 +150,115 @@ pub fn fmt_stub(_args: std::fmt::Arguments<'_>) -> String {
 pub fn active() -> bool {
     unsafe { crate::stubs::G.rec_new > 0 }
 }
+
+// ---------------------------------------------------------------------------
+// S4: BLS points as opaque tokens (blst is C/assembly behind FFI).
+// A key is its 48 bytes stashed in the blst_p1 storage; byte 0 decides the two
+// predicates of the FFI contract: 0xEE.. = not a valid point, 0xC0.. = the point at
+// infinity (valid), anything else = a valid non-infinity point.
+pub const PK_SIZE: usize = std::mem::size_of::<chia_bls::PublicKey>();
+
+pub fn pk_token(bytes: &[u8; 48]) -> chia_bls::PublicKey {
+    let mut raw = [0u8; PK_SIZE];
+    let mut i = 0;
+    while i < 48 {
+        raw[i] = bytes[i];
+        i += 1;
+    }
+    unsafe { std::mem::transmute::<[u8; PK_SIZE], chia_bls::PublicKey>(raw) }
+}
+
+pub fn pk_bytes(pk: &chia_bls::PublicKey) -> [u8; 48] {
+    let raw = unsafe { std::mem::transmute::<chia_bls::PublicKey, [u8; PK_SIZE]>(*pk) };
+    let mut out = [0u8; 48];
+    let mut i = 0;
+    while i < 48 {
+        out[i] = raw[i];
+        i += 1;
+    }
+    out
+}
+
+pub fn pk_from_bytes_stub(bytes: &[u8; 48]) -> chia_bls::Result<chia_bls::PublicKey> {
+    if bytes[0] == 0xEE {
+        Err(chia_bls::Error::G1NotCanonical)
+    } else {
+        Ok(pk_token(bytes))
+    }
+}
+
+pub fn pk_is_inf_stub(pk: &chia_bls::PublicKey) -> bool {
+    pk_bytes(pk)[0] == 0xC0
+}
+
+pub fn pk_to_bytes_stub(pk: &chia_bls::PublicKey) -> [u8; 48] {
+    pk_bytes(pk)
+}
+
+/// what the verifier was handed: up to VER_MAX pairs of (key bytes, message)
+pub const VER_MAX: usize = 2;
+pub const VER_MSG_CAP: usize = 112;
+pub struct VerifierLog {
+    pub magic: [u8; 16],
+    pub n: usize,
+    pub key: [[u8; 48]; VER_MAX],
+    pub msg: [[u8; VER_MSG_CAP]; VER_MAX],
+    pub msg_len: [usize; VER_MAX],
+    pub cached_path: bool,
+}
+pub static mut VLOG: VerifierLog = VerifierLog {
+    magic: *b"/verif/kh-bls-vl",
+    n: 0,
+    key: [[0; 48]; VER_MAX],
+    msg: [[0; VER_MSG_CAP]; VER_MAX],
+    msg_len: [0; VER_MAX],
+    cached_path: false,
+};
+
+unsafe fn vlog_push(pk: &chia_bls::PublicKey, m: &[u8]) {
+    if VLOG.n < VER_MAX {
+        let k = VLOG.n;
+        VLOG.key[k] = pk_bytes(pk);
+        let mut i = 0;
+        while i < m.len() {
+            if i < VER_MSG_CAP {
+                VLOG.msg[k][i] = m[i];
+            }
+            i += 1;
+        }
+        VLOG.msg_len[k] = m.len();
+    }
+    VLOG.n += 1;
+}
+
+pub fn aggregate_verify_stub<Pk: std::borrow::Borrow<chia_bls::PublicKey>, Msg: std::borrow::Borrow<[u8]>, I>(
+    _sig: &chia_bls::Signature,
+    data: I,
+) -> bool
+where
+    I: IntoIterator<Item = (Pk, Msg)>,
+{
+    unsafe {
+        VLOG.cached_path = false;
+        for (pk, m) in data {
+            vlog_push(pk.borrow(), m.borrow());
+        }
+        G.bls_calls += 1;
+        G.bls_verdict
+    }
+}
+
+pub fn cache_aggregate_verify_stub<Pk: std::borrow::Borrow<chia_bls::PublicKey>, Msg: AsRef<[u8]>>(
+    _this: &chia_bls::BlsCache,
+    pks_msgs: impl IntoIterator<Item = (Pk, Msg)>,
+    _sig: &chia_bls::Signature,
+) -> bool {
+    unsafe {
+        VLOG.cached_path = true;
+        for (pk, m) in pks_msgs {
+            vlog_push(pk.borrow(), m.as_ref());
+        }
+        G.bls_calls += 1;
+        G.bls_verdict
+    }
+}
